@@ -13,5 +13,7 @@ CFG = dict(
     assumptions=["well-behaved pipeline: eligible results, gas != 0, prices in uint256 range, perform data <= 10,000 bytes, correct work ids",
                  "wg_ext: the work-id generator ignores the coordinated block"],
     modelled="validation (Model/Validate.v), Outcome (Model/Outcome.v), observation hooks (Model/Observation.v), Reports (Model/Reports.v)",
-    partial="byte lengths of outcomes and of the proposal/block-history part of observations are observed on every case, not proved (no encoder-length model)",
+    partial="the byte length of an OUTCOME is proved (C03_outcome_len: the wire model of Model/Wire.v, which C15 ties to Encode() byte for byte, "
+            "stays below MaxOutcomeLength for perform data up to 10,000 bytes - 2,381,012 bytes at most); the byte length of an OBSERVATION is observed on every "
+            "case (the trimming arithmetic of the performables part is proved from sizes measured with the real encoder)",
 )
